@@ -235,5 +235,8 @@ theorem uidTok_ne_empty (n : Nat) : uidTok n ≠ "" := by
   have := congrArg String.length h
   simp [uidTok, String.length_append] at this
 
+theorem precondition_deleteOpts (u : String) (hu : u ≠ "") : precondition (deleteOpts u) "uid" = some u := by
+  simp [precondition, deleteOpts, J.fields, lookup, hu]
+
 end C02
 end Mc
